@@ -185,7 +185,7 @@ impl Complex {
 				if !self.imag.is_definitely_one() {
 					result = self
 						.imag
-						.pow(2.into(), int)?
+						.pow(rhs.real, int)?
 						.apply(Self::from)
 						.mul(&result, int)?;
 				}
